@@ -137,7 +137,7 @@ check("C10", "the directory is a valid OCI layout equal to the API state", "expl
       "orphaned-child (finding 12) is excluded from the differentials and counted.",
       "DESIGN.md §3 C10",
       [R("^TestC10$", 3600, 60000, shards=(8, 16), steps=30), R("^TestC10FirstWrite$", 4000, 100000), R("^TestC10CloseFinal$", 640, 16000),
-       R("^TestC10Faults$", 3000, 200000, variant="vfs")])
+       R("^TestC10Faults$", 10000, 300000, variant="vfs")])
 
 check("C08", "upload sessions sequential, isolated, no residue", "exploration",
       "rapid state machine inside a testing/synctest bubble (virtual time, true quiescence) vs session model; residue scan of _uploads",
